@@ -65,13 +65,13 @@ var interpPkgs = map[string]bool{
 	"internal/bytealg": true, "internal/abi": true, "sync/atomic": true, "sync": true, "unsafe": true,
 	"github.com/go-jose/go-jose/v4/jwt": true,
 	"github.com/m7913d/go-ntlm/ntlm":    true,
-	"net/textproto":                     true, "github.com/google/uuid": true, "github.com/go-jose/go-jose/v4": true, "math/big": true, "internal/godebug": false,
+	"net/textproto":                     true, "net/http/internal": true, "net/netip": true, "github.com/google/uuid": true, "github.com/go-jose/go-jose/v4": true, "math/big": true, "internal/godebug": false,
 }
 
 var initPkgs = map[string]bool{
 	"errors": true, "io": true, "strconv": true, "unicode/utf8": true, "unicode/utf16": true, "bytes": true,
 	"strings": true, "encoding/binary": true, "encoding/hex": true, "encoding/base64": true, "sort": true,
-	"math/bits": true, "time": true, "context": true, "bufio": true,
+	"math/bits": true, "time": true, "context": true, "bufio": true, "net/http/internal": true,
 	"github.com/go-jose/go-jose/v4/jwt": true, "github.com/m7913d/go-ntlm/ntlm": true,
 }
 
@@ -333,6 +333,7 @@ var interpFuncs = map[string]bool{
 	"(*net/http.Request).Context":      true,
 	"(*net/http.Request).WithContext":  true,
 	"(net/http.HandlerFunc).ServeHTTP": true,
+	"net/http/httputil.NewChunkedReader": true,
 	// pure helpers of gorilla/websocket (no connection state)
 	"github.com/gorilla/websocket.FormatCloseMessage":     true,
 	"github.com/gorilla/websocket.IsCloseError":           true,
